@@ -195,6 +195,13 @@ def special(prop, tier, seed, bins, out, problems):
                     jobs[(e["name"], "main")] = ex.submit(rustc, os.path.join(e["dir"], "main.rs"),
                                                           os.path.join(scratch, e["name"]), rlib, deps, True)
                 res = {k: f.result() for k, f in jobs.items()}
+            # a compilation that did not terminate normally under parallel load is retried once, alone
+            for k, r in list(res.items()):
+                if r["ice"]:
+                    e = next(x for x in (comp + run) if x["name"] == k[0])
+                    src = os.path.join(e["dir"], ("main" if k[1] == "main" else k[1]) + ".rs")
+                    outp = os.path.join(scratch, e["name"] if k[1] == "main" else "%s_%s.rmeta" % (e["name"], k[1]))
+                    res[k] = rustc(src, outp, rlib, deps, k[1] == "main")
             n_programs = len(res)
             for k, r in res.items():
                 if r["ice"]:
